@@ -397,8 +397,12 @@ func validatePageSettings(settings *PageSettings) error {
 		const minSize = 12.7  // 0.5英寸
 		const maxSize = 558.8 // 22英寸
 
-		if settings.CustomWidth < minSize || settings.CustomWidth > maxSize ||
-			settings.CustomHeight < minSize || settings.CustomHeight > maxSize {
+		// sizes are stored in whole twips (0.0176mm): a size on the bound reads back a hair inside or
+		// outside it, and every convenience setter re-validates what it read back
+		const eps = 0.01
+
+		if settings.CustomWidth < minSize-eps || settings.CustomWidth > maxSize+eps ||
+			settings.CustomHeight < minSize-eps || settings.CustomHeight > maxSize+eps {
 			return fmt.Errorf("页面尺寸必须在%.1f-%.1fmm范围内", minSize, maxSize)
 		}
 	}
